@@ -3,7 +3,7 @@
    before; no fixed variable may still be mentioned. *)
 From Coq Require Import List ZArith QArith Qcanon Bool Arith.
 From Dimod Require Import Base.Util Model.Poly Model.HPoly Model.FixPy Model.HPolyPy.
-From Dimod Require Model.Expr Model.FixCopy Model.FlipMarks.
+From Dimod Require Model.Expr Model.FixCopy Model.FlipMarks Model.Samples.
 Import ListNotations.
 
 Record case := mkCase {
@@ -34,6 +34,21 @@ Definition hcheck (c : hcase) : bool :=
   hpoly_eqb (hfix (h_fixes c) (h_before c)) (h_after c) && negb (hmentions_any (h_fixes c) (h_after c))
   (* the python loop of higherordercomposites.fix_variables (set difference, v *= value, final `()` item) *)
   && hdict_items_eqb (fix_variables_py (h_fixes c) (h_before c)) (h_after c).
+
+(* PolyFixedVariableComposite.sample_poly(poly, fixed_variables) over an exact child: the rows returned (columns ls)
+   with their energies.  Every row carries the fixed values, and its energy is the ORIGINAL polynomial's at the row
+   (= the fixed polynomial's at the row, by hfix_energy; both are evaluated) *)
+Record pcase := mkPCase {
+  pc_fixes : list (label * Qc); pc_poly : hpoly; pc_ls : list label; pc_rows : list (list Qc); pc_en : list Qc }.
+
+Definition pcheck (c : pcase) : bool :=
+  list_eqb Qc_eqb (map (fun row => henergy (pc_poly c) (Samples.row_sample (pc_ls c) row)) (pc_rows c)) (pc_en c)
+  && list_eqb Qc_eqb (map (fun row => henergy (hfix (pc_fixes c) (pc_poly c)) (Samples.row_sample (pc_ls c) row))
+                          (pc_rows c)) (pc_en c)
+  && forallb (fun row => (length row =? length (pc_ls c))%nat
+                         && forallb (fun f => existsb (Nat.eqb (fst f)) (pc_ls c)
+                                              && Qc_eqb (Samples.row_value (pc_ls c) row (fst f)) (snd f)) (pc_fixes c))
+             (pc_rows c).
 
 (* ---------- CQM, index level: the two code paths on the RAW expression state ----------
    before / after are the raw states (_iindices, _ilinear, _iquadratic, offset of the objective and of every
